@@ -167,6 +167,55 @@ fn ki5c_stored() {
     kani::cover!(rc == ReturnCode::DataError);
 }
 
+/// Stored block under Z_TREES: the call returns right after LEN/NLEN, and the state it saves is "copy LEN bytes" — the state
+/// `ki5c_copyblock_resume` starts from — so the next call continues with the block's data (C04: flush-mode independence).
+#[kani::proof]
+#[kani::unwind(12)]
+#[kani::stub(crate::inflate::inftrees::inflate_table, stub_table_unreachable)]
+#[kani::stub(core::fmt::write, stub_fmt_write)]
+#[kani::stub(core::panicking::panic_nounwind, stub_pn)]
+#[kani::stub(core::panicking::panic_nounwind_fmt, stub_pnf)]
+#[kani::stub(crate::inflate::inflate_fast_help, stub_fast_unreachable)]
+#[kani::stub(crate::inflate::State::len_and_friends, stub_laf_suspends)]
+#[kani::stub(crate::inflate::writer::Writer::copy_match, stub_copy_match_unreachable)]
+#[kani::stub(crate::inflate::writer::Writer::extend_from_window, stub_efw_unreachable)]
+#[kani::stub(<[u16]>::fill, stub_fill_unreachable)]
+fn ki5c_stored_trees() {
+    const NI: usize = 8;
+    let input: [u8; NI] = kani::any();
+    let n_in: usize = kani::any();
+    kani::assume(n_in >= 4 && n_in <= NI);
+    let nb: u8 = kani::any();
+    kani::assume(nb <= 7);
+    let pv: u64 = kani::any();
+    let mut out = [0u8; 4];
+    let mut win = [0u8; 8 + 64];
+    let mut state = typed_state(&mut win, 0, Mode::Stored);
+    state.flags.update(Flags::IS_LAST_BLOCK, kani::any());
+    state.flush = InflateFlush::Trees;
+    state.bit_reader.prime(nb, pv);
+    unsafe { state.bit_reader.update_slice(input.as_ptr(), n_in) };
+    state.in_available = n_in;
+    state.writer = unsafe { Writer::new_uninit(out.as_mut_ptr(), 4) };
+    state.out_available = 4;
+    let rc = state.dispatch();
+    let used = consumed(&state, input.as_ptr());
+    let produced = state.writer.len();
+    let len = u16::from_le_bytes([input[0], input[1]]);
+    let nlen = u16::from_le_bytes([input[2], input[3]]);
+    if len != !nlen {
+        assert!(rc == ReturnCode::DataError && matches!(state.mode, Mode::Bad) && produced == 0);
+    } else {
+        assert!(rc == ReturnCode::Ok && used == 4 && produced == 0);
+        assert!(matches!(state.mode, Mode::CopyBlock), "the next call copies the block's bytes");
+        assert!(state.length == len as usize);
+        assert!(state.bit_reader.bits_in_buffer() == 0);
+    }
+    kani::cover!(len == !nlen && len == 5);
+    kani::cover!(rc == ReturnCode::DataError);
+    core::mem::forget(state);
+}
+
 /// CopyBlock resumed with any remaining length: same accounting (the state a previous call left behind)
 #[kani::proof]
 #[kani::unwind(12)]
